@@ -84,6 +84,21 @@ Theorem crash_atomic_multi : forall cl tfd frs ks j st, scen_ok frs st ->
   shape frs st st' /\ untouched frs st st'.
 Proof. exact crash_atomic_multi_lemma. Qed.
 
+(* gd_include(.., GD_CREAT) followed by the flush: the new fragment's file is
+   created empty under its final name and then written by the usual protocol;
+   at every instant every fragment file is as before the call, as right after
+   the creation (the new fragment: empty) or complete new *)
+Theorem include_crash_atomic : forall cl tfd d p frs k j st,
+  scen_ok frs st -> names st p = None -> (forall f, In f frs -> ftmp f <> p) ->
+  let st1 := run [ok (Creat d p 438%N); ok (Close d)] st in
+  lookup st1 p = Some [] /\
+  (forall q, q <> p -> lookup st1 q = lookup st q) /\
+  forall f, In f frs ->
+    lookup (crash (include_trace cl tfd d p frs k) j st) (fpath f) = lookup st (fpath f) \/
+    lookup (crash (include_trace cl tfd d p frs k) j st) (fpath f) = lookup st1 (fpath f) \/
+    lookup (crash (include_trace cl tfd d p frs k) j st) (fpath f) = Some (new_text f).
+Proof. exact include_crash_lemma. Qed.
+
 (* the EEXIST retry loop of _GD_MakeTempFile: failed exclusive creations put
    in front of any trace leave every state of that trace unchanged, so all the
    theorems above hold for flushes that had to try several temporary names *)
